@@ -578,9 +578,19 @@ class HasIO(HasStateDisplay, HasLabel, HasRun, Generic[OutputsType], ABC):
         """
         # Leverage a separate function because mypy has trouble parsing types
         # if we loop over inputs and outputs at the same time
-        return self._copy_panel(
+        copied_inputs = self._copy_panel(
             other, self.inputs, other.inputs, fail_hard=fail_hard
-        ) + self._copy_panel(other, self.outputs, other.outputs, fail_hard=fail_hard)
+        )
+        try:
+            copied_outputs = self._copy_panel(
+                other, self.outputs, other.outputs, fail_hard=fail_hard
+            )
+        except Exception:
+            # The outputs panel has unwound itself; the inputs are ours to unwind
+            for channel, value in copied_inputs:
+                channel.value = value
+            raise
+        return copied_inputs + copied_outputs
 
     def _copy_panel(
         self,
